@@ -619,13 +619,7 @@ pub fn raw_ext_slice() {
 }
 
 /// strict extension chain decoding + iteration to exhaustion
-pub fn ipv6_exts_strict() {
-    ipv6_exts_strict_n::<24>()
-}
-pub fn ipv6_exts_strict_16() {
-    ipv6_exts_strict_n::<16>()
-}
-pub fn ipv6_exts_strict_n<const N: usize>() {
+pub fn ipv6_exts_strict<const N: usize>() {
     let t = Tight::<N>::new(any_le(N));
     let s = t.slice();
     let start = IpNumber(any());
@@ -644,8 +638,8 @@ pub fn ipv6_exts_strict_n<const N: usize>() {
 }
 
 /// lax extension chain decoding + iteration to exhaustion (the result may have stopped early)
-pub fn ipv6_exts_lax() {
-    let t = Tight::<32>::new(any_le(32));
+pub fn ipv6_exts_lax<const N: usize>() {
+    let t = Tight::<N>::new(any_le(N));
     let s = t.slice();
     let start = IpNumber(any());
     let (e, _n, rest, err) = Ipv6ExtensionsSlice::from_slice_lax(start, s);
@@ -653,12 +647,13 @@ pub fn ipv6_exts_lax() {
     let n = touch_ipv6_exts(s, &e);
     witness!(err.is_some() && n >= 1, "stopped_after_a_header");
     witness!(err.is_none() && n >= 2, "complete_two_headers");
+    witness!(err.is_some() && n == 0, "stopped_at_first_header");
     assert!(e.slice().len() + rest.len() == s.len());
     core::mem::forget(err);
 }
 
-pub fn ipv6_slice() {
-    let t = Tight::<64>::new(any_le(64));
+pub fn ipv6_slice<const N: usize>() {
+    let t = Tight::<N>::new(any_le(N));
     let s = t.slice();
     let lax: bool = any();
     let r = if lax { Ipv6Slice::from_slice_lax(s) } else { Ipv6Slice::from_slice(s) };
@@ -677,8 +672,8 @@ pub fn ipv6_slice() {
     }
 }
 
-pub fn lax_ipv6_slice() {
-    let t = Tight::<64>::new(any_le(64));
+pub fn lax_ipv6_slice<const N: usize>() {
+    let t = Tight::<N>::new(any_le(N));
     let s = t.slice();
     match LaxIpv6Slice::from_slice(s) {
         Ok((ip, stop)) => {
@@ -696,8 +691,8 @@ pub fn lax_ipv6_slice() {
     }
 }
 
-pub fn ip_slice() {
-    let t = Tight::<64>::new(any_le(64));
+pub fn ip_slice<const N: usize>() {
+    let t = Tight::<N>::new(any_le(N));
     let s = t.slice();
     match IpSlice::from_slice(s) {
         Ok(ip) => {
@@ -728,8 +723,8 @@ pub fn ip_slice() {
     }
 }
 
-pub fn lax_ip_slice() {
-    let t = Tight::<64>::new(any_le(64));
+pub fn lax_ip_slice<const N: usize>() {
+    let t = Tight::<N>::new(any_le(N));
     let s = t.slice();
     match LaxIpSlice::from_slice(s) {
         Ok((ip, stop)) => {
@@ -777,75 +772,17 @@ crate::harnesses! {
     c01_auth_slice = auth_slice; unwind 4,
     c01_ipv6_header_slice = ipv6_header_slice; unwind 4,
     c01_raw_ext_slice = raw_ext_slice; unwind 4,
-    c01_ipv6_exts_strict = ipv6_exts_strict; unwind 6,
-    c01_ipv6_exts_strict_16 = ipv6_exts_strict_16; unwind 6,
-    c01_ipv6_exts_lax = ipv6_exts_lax; unwind 6,
-    c01_ipv6_slice = ipv6_slice; unwind 5,
-    c01_lax_ipv6_slice = lax_ipv6_slice; unwind 5,
-    c01_ip_slice = ip_slice; unwind 5,
-    c01_lax_ip_slice = lax_ip_slice; unwind 5,
-}
-
-pub fn probe_iter_only() {
-    let data: [u8; 16] = any();
-    let t = Tight::<16>::from_bytes(&data);
-    let s = t.slice();
-    let start = IpNumber(any());
-    match Ipv6ExtensionsSlice::from_slice(start, s) {
-        Ok((e, _n, _rest)) => {
-            let mut n = 0usize;
-            let mut it = e.clone().into_iter();
-            while let Some(_x) = it.next() {
-                n += 1;
-            }
-            assert!(n <= 2);
-        }
-        Err(_) => {}
-    }
-}
-pub fn probe_decode_only() {
-    let data: [u8; 16] = any();
-    let t = Tight::<16>::from_bytes(&data);
-    let s = t.slice();
-    let start = IpNumber(any());
-    match Ipv6ExtensionsSlice::from_slice(start, s) {
-        Ok((e, _n, rest)) => {
-            assert!(e.slice().len() + rest.len() == s.len());
-        }
-        Err(_) => {}
-    }
-}
-pub fn probe_iter_touch_nowithin() {
-    let data: [u8; 16] = any();
-    let t = Tight::<16>::from_bytes(&data);
-    let s = t.slice();
-    let start = IpNumber(any());
-    match Ipv6ExtensionsSlice::from_slice(start, s) {
-        Ok((e, _n, _rest)) => {
-            let mut it = e.clone().into_iter();
-            while let Some(x) = it.next() {
-                match x {
-                    Ipv6ExtensionSlice::HopByHop(r)
-                    | Ipv6ExtensionSlice::Routing(r)
-                    | Ipv6ExtensionSlice::DestinationOptions(r) => { sink(r.next_header()); sink(r.payload().len()); }
-                    Ipv6ExtensionSlice::Fragment(f) => { sink(f.identification()); }
-                    Ipv6ExtensionSlice::Authentication(a) => { sink(a.spi()); sink(a.raw_icv().len()); }
-                }
-            }
-        }
-        Err(_) => {}
-    }
-}
-#[cfg(kani)]
-mod probes {
-    use super::*;
-    #[kani::proof]
-    #[kani::unwind(6)]
-    fn probe_d1() { probe_iter_only() }
-    #[kani::proof]
-    #[kani::unwind(6)]
-    fn probe_d2() { probe_decode_only() }
-    #[kani::proof]
-    #[kani::unwind(6)]
-    fn probe_d3() { probe_iter_touch_nowithin() }
+    // extension chains: N=16 -> <= 2 headers (loop <= 3 passes), N=24 -> <= 3 headers
+    c01_ipv6_exts_strict_16 = ipv6_exts_strict::<16>; unwind 4,
+    c01_ipv6_exts_lax_16 = ipv6_exts_lax::<16>; unwind 4,
+    c01_ipv6_exts_strict_24 = ipv6_exts_strict::<24>; unwind 5,
+    c01_ipv6_exts_lax_24 = ipv6_exts_lax::<24>; unwind 5,
+    c01_ipv6_slice_56 = ipv6_slice::<56>; unwind 4,
+    c01_lax_ipv6_slice_56 = lax_ipv6_slice::<56>; unwind 4,
+    c01_ip_slice_56 = ip_slice::<56>; unwind 4,
+    c01_lax_ip_slice_56 = lax_ip_slice::<56>; unwind 4,
+    c01_ipv6_slice_64 = ipv6_slice::<64>; unwind 5,
+    c01_lax_ipv6_slice_64 = lax_ipv6_slice::<64>; unwind 5,
+    c01_ip_slice_64 = ip_slice::<64>; unwind 5,
+    c01_lax_ip_slice_64 = lax_ip_slice::<64>; unwind 5,
 }
